@@ -11,7 +11,7 @@ from functools import lru_cache
 
 import z3
 
-from .mir import (ENUMS, ENUM_FIELD_TYPES, STRUCTS, ORDERING_DISCR, INT_RANGES, TYPE_ALIASES, base_ty, generic_args,
+from .mir import (CONST_ITEMS, ENUMS, ENUM_FIELD_TYPES, STRUCTS, ORDERING_DISCR, INT_RANGES, TYPE_ALIASES, base_ty, generic_args,
                   split_top, strip_turbofish)
 
 
@@ -338,13 +338,20 @@ class Ctx:
         t = time.time()
         self.stats["checks"] += 1
         fp = self._has_fp()
+        # after a few undecided feasibility queries (typically a loop over nonlinear terms) the following ones get a short
+        # timeout and no retry: undecided = assumed feasible, which is sound, and the path budget in Executor.branches ends
+        # such paths as truncated (= inconclusive, never a pass)
+        tired = self.stats.get("assumed_feasible", 0) >= 3
+        self.last_unknown = False
         if fp:
             self.z.set("timeout", self.fp_feasibility_ms)
+        elif tired:
+            self.z.set("timeout", 2000)
         r = self.z.check()
-        if fp:
+        if fp or tired:
             self.z.set("timeout", self.timeout_ms)
         self._last_model = None
-        if r == z3.unknown and not fp:
+        if r == z3.unknown and not fp and not tired:
             s = z3.Solver()
             s.set("timeout", 10000)
             s.set("random_seed", 11)
@@ -353,6 +360,7 @@ class Ctx:
         self.stats["solver_s"] += time.time() - t
         if r == z3.unknown:
             self.stats["assumed_feasible"] = self.stats.get("assumed_feasible", 0) + 1
+            self.last_unknown = True
             return True
         return r == z3.sat
 
@@ -564,6 +572,9 @@ class Executor:
         self.use_fp = True
         self.divcache = {}
         self.closure_index = {}
+        self.deadline = None
+        self.path_unknowns = 0
+        self.path_unknown_limit = 6
         self.recursion_limits = {}      # fn-name suffix -> max simultaneously active frames (harness assumption on input shape)
         self.active = {}
         self.cuts = {}
@@ -843,8 +854,20 @@ class Executor:
             else:
                 m = re.match(r"^(\d+) of \d+$", idx)
                 iv = int(m.group(1)) if m else None
+            if iv is None and isinstance(seq, SeqObj) and re.match(r"^_\d+$", idx):
+                # symbolic index into a table of scalars (read-only): an if-then-else chain over the entries; the bounds
+                # check is a separate MIR assert in front of the access
+                n = seq.ln if isinstance(seq.ln, int) else conc_int(seq.ln)
+                ix = fr[idx].v
+                if n is not None and n <= 512:
+                    vals = [self.seq_item(seq, j).v for j in range(n)]
+                    if vals and all(is_z3(v) for v in vals):
+                        e = vals[-1]
+                        for j in range(n - 2, -1, -1):
+                            e = z3.If(ix == j, vals[j], e)
+                        return Ref(Cell(e, "table_read"))
             if iv is None or not isinstance(seq, SeqObj):
-                raise Unsupported("symbolic index projection " + repr(pl))
+                raise Unsupported("symbolic index projection %r into %r" % (pl, seq))
             return Ref(self.seq_item(seq, iv))
         raise Unsupported("place kind " + repr(pl))
 
@@ -878,6 +901,22 @@ class Executor:
                     return v
                 raise Unsupported("promoted constant %s has no value" % name)
             v = self.const(o[6:].strip())
+            if isinstance(v, Opaque) and v.ty == "const" and re.match(r"^[\w:]+$", v.tag or ""):
+                # a named const item: its body is printed in the dump
+                nm = v.tag
+                if nm.split("::")[-1] in CONST_ITEMS:
+                    return self.const(CONST_ITEMS[nm.split("::")[-1]])
+                cands = [fl[0] for k, fl in self.fns.items() if not fl[0].params and (k == nm or k.split("::")[-1] == nm.split("::")[-1])]
+                cands = [c for c in cands if "promoted" not in c.name]
+                if len(cands) == 1 and cands[0].blocks:
+                    # const evaluation is concrete: its loops are not subject to the unwinding bound of the harness
+                    saved = self.loop_bound
+                    self.loop_bound = 1 << 16
+                    try:
+                        for val in self.run(cands[0], [], 1):
+                            return val
+                    finally:
+                        self.loop_bound = saved
             if isinstance(v, Closure):
                 v.parent = fr["__fn"].v
             return v
@@ -904,6 +943,12 @@ class Executor:
                 return StrVal(_unescape_rust(c[1:c.rindex('"')]))
             except Exception:
                 return Opaque("str", c)
+        if c.startswith('b"'):
+            try:
+                bs = _unescape_rust(c[2:c.rindex('"')])
+                return Ref(Cell(SeqObj(self.fresh_name("bytes"), "u8", [Cell(z3.IntVal(ord(ch))) for ch in bs], len(bs), len(bs))))
+            except Exception:
+                return Opaque("bytes", c)
         if c.startswith("'"):
             body = c[1:c.rindex("'")]
             s = _unescape_rust(body)
@@ -1370,7 +1415,14 @@ class Executor:
             self.ctx.push()
             self.ctx.add(c)
             if self.ctx.feasible():
-                yield i
+                go = True
+                if self.ctx.last_unknown:
+                    tset(self, "path_unknowns", self.path_unknowns + 1)
+                    if self.path_unknowns > self.path_unknown_limit:
+                        self.truncated.append(("path abandoned after %d undecided feasibility queries" % self.path_unknowns, ""))
+                        go = False
+                if go:
+                    yield i
             self.ctx.pop()
             undo(mark)
 
@@ -1516,6 +1568,8 @@ class Executor:
 
     def run_block(self, f, fr, bb, depth, visits):
         while True:
+            if self.deadline and time.time() > self.deadline:
+                raise Inconclusive("time budget of this check exhausted during symbolic execution (in %s)" % f.name)
             blk = f.blocks[bb]
             n = visits.get(bb, 0) + 1
             if n > self.loop_bound:
